@@ -1444,7 +1444,9 @@ def ac13_independent_inputs(model: Model, fc: FnCls, R: RuleResult) -> int:
         if depth > 14:
             return None
         if isinstance(e, ast.ListComp):
-            return True if _is_copy_call(e.elt) else None
+            def elt_copy(x):
+                return _is_copy_call(x) or (isinstance(x, ast.IfExp) and elt_copy(x.body) and elt_copy(x.orelse))
+            return True if elt_copy(e.elt) else None
         if _is_copy_call(e):
             return True
         if isinstance(e, ast.Starred):
